@@ -147,7 +147,8 @@ type Explorer struct {
 
 	mu        sync.Mutex
 	cond      *sync.Cond
-	work      [][]Decision
+	work      [][]Decision   // shared overflow / initial work
+	locals    [][][]Decision // per-worker depth-first stacks
 	active    int
 	stop      bool
 
@@ -186,6 +187,7 @@ func (ex *Explorer) Explore() {
 		ex.work = [][]Decision{ParsePrefix(ex.Opt.OnlyPrefix)}
 		ex.Opt.Workers = 1
 	}
+	ex.locals = make([][][]Decision, ex.Opt.Workers)
 	var wg sync.WaitGroup
 	for i := 0; i < ex.Opt.Workers; i++ {
 		wg.Add(1)
@@ -195,21 +197,41 @@ func (ex *Explorer) Explore() {
 		}(i)
 	}
 	wg.Wait()
-	if len(ex.work) > 0 {
-		ex.Inconcl = append(ex.Inconcl, fmt.Sprintf("budget exhausted with %d unexplored prefixes", len(ex.work)))
+	if n := ex.pending(); n > 0 {
+		ex.Inconcl = append(ex.Inconcl, fmt.Sprintf("budget exhausted with %d unexplored prefixes", n))
 	}
 }
 
-func (ex *Explorer) take() ([]Decision, bool) {
+func (ex *Explorer) take(wid int) ([]Decision, bool) {
 	ex.mu.Lock()
 	defer ex.mu.Unlock()
 	for {
 		if ex.stop {
 			return nil, false
 		}
+		// own stack first (depth-first: maximal prefix sharing with the last run)
+		if n := len(ex.locals[wid]); n > 0 {
+			p := ex.locals[wid][n-1]
+			ex.locals[wid] = ex.locals[wid][:n-1]
+			ex.active++
+			return p, true
+		}
 		if n := len(ex.work); n > 0 {
 			p := ex.work[n-1]
 			ex.work = ex.work[:n-1]
+			ex.active++
+			return p, true
+		}
+		// steal the oldest (shallowest) prefix of the fullest victim
+		victim, best := -1, 0
+		for i := range ex.locals {
+			if len(ex.locals[i]) > best {
+				victim, best = i, len(ex.locals[i])
+			}
+		}
+		if victim >= 0 {
+			p := ex.locals[victim][0]
+			ex.locals[victim] = ex.locals[victim][1:]
 			ex.active++
 			return p, true
 		}
@@ -224,20 +246,28 @@ func (ex *Explorer) take() ([]Decision, bool) {
 func (ex *Explorer) done() {
 	ex.mu.Lock()
 	ex.active--
-	if ex.active == 0 && len(ex.work) == 0 {
+	if ex.active == 0 && ex.pending() == 0 {
 		ex.cond.Broadcast()
 	}
 	ex.mu.Unlock()
 }
 
-func (ex *Explorer) push(p []Decision) {
+func (ex *Explorer) push(wid int, p []Decision) {
 	if ex.Opt.OnlyPrefix != "" {
 		return
 	}
 	ex.mu.Lock()
-	ex.work = append(ex.work, p)
+	ex.locals[wid] = append(ex.locals[wid], p)
 	ex.cond.Signal()
 	ex.mu.Unlock()
+}
+
+func (ex *Explorer) pending() int {
+	n := len(ex.work)
+	for _, l := range ex.locals {
+		n += len(l)
+	}
+	return n
 }
 
 func (ex *Explorer) worker(id int) {
@@ -273,12 +303,14 @@ func (ex *Explorer) worker(id int) {
 		ex.mu.Unlock()
 		sp.Close()
 	}()
+	sess := newSession(sp)
 	for {
-		prefix, ok := ex.take()
+		prefix, ok := ex.take(id)
 		if !ok {
 			return
 		}
-		r := newRun(ex, sp, prefix)
+		r := newRun(ex, sess, prefix)
+		r.wid = id
 		r.execute()
 		ex.record(r)
 		ex.done()
@@ -292,8 +324,64 @@ func (ex *Explorer) worker(id int) {
 	}
 }
 
+// session is the persistent solver state of one worker. Its assertion stack
+// mirrors the decisions of the most recent run (one solver frame per
+// decision), so that the next run — which in depth-first order shares a long
+// decision prefix — re-uses everything asserted for the common prefix.
+type session struct {
+	sp      *solver.Proc
+	decs    []Decision       // decisions whose frames are on the solver stack
+	byBody  map[string]string // structural definition -> solver symbol
+	symLvl  map[string]int    // solver symbol -> level it was defined at
+	bodyOf  map[string]string // solver symbol -> body (for removal)
+	asserts [][]string        // per level: asserted symbols, in order
+	nsym    int
+	valid   bool
+}
+
+func newSession(sp *solver.Proc) *session {
+	return &session{sp: sp}
+}
+
+// reset discards everything on the solver stack.
+func (se *session) reset() {
+	if se.valid {
+		se.sp.Send(fmt.Sprintf("(pop %d)", len(se.decs)+1))
+	}
+	se.sp.Send("(push 1)")
+	se.decs = nil
+	se.byBody = map[string]string{}
+	se.symLvl = map[string]int{}
+	se.bodyOf = map[string]string{}
+	se.asserts = [][]string{nil}
+	se.valid = true
+}
+
+// popTo keeps levels 0..c.
+func (se *session) popTo(c int) {
+	n := len(se.decs) - c
+	if n <= 0 {
+		return
+	}
+	se.sp.Send(fmt.Sprintf("(pop %d)", n))
+	se.decs = se.decs[:c]
+	se.asserts = se.asserts[:c+1]
+	for sym, lvl := range se.symLvl {
+		if lvl > c {
+			delete(se.byBody, se.bodyOf[sym])
+			delete(se.bodyOf, sym)
+			delete(se.symLvl, sym)
+		}
+	}
+}
+
 // Run is one path.
 type Run struct {
+	wid        int
+	sess       *session
+	keepLevels int // levels 0..keepLevels-1 of the solver stack are re-used
+	shadowPos  []int
+	names      map[int]string
 	ex      *Explorer
 	sp      *solver.Proc
 	in      *Interp
@@ -315,25 +403,53 @@ type Run struct {
 	finalModel map[string]uint64
 	recovered int
 	solverDead bool
+	pending   []pendingAssert
 	stubs     map[string]int
 	bounds    map[string]string
 	blobLens  []*sym.Term
 }
 
-func newRun(ex *Explorer, sp *solver.Proc, prefix []Decision) *Run {
-	r := &Run{ex: ex, sp: sp, prefix: prefix, defined: map[int]bool{}, funcs: map[string]int{}, stubs: map[string]int{}, bounds: map[string]string{}}
+func newRun(ex *Explorer, se *session, prefix []Decision) *Run {
+	r := &Run{ex: ex, sp: se.sp, sess: se, names: map[int]string{}, prefix: prefix, defined: map[int]bool{}, funcs: map[string]int{}, stubs: map[string]int{}, bounds: map[string]string{}}
 	ctx := sym.NewCtx()
 	r.in = &Interp{P: ex.P, ctx: ctx, run: r, globals: map[*ssa.Global]Ptr{}}
 	return r
 }
 
-func (r *Run) noteFunction(fn *ssa.Function) { r.funcs[fn.String()]++ }
+func (r *Run) noteFunction(name string) { r.funcs[name]++ }
 func (r *Run) noteRecovered(p *targetPanic) { r.recovered++ }
 
+func (r *Run) align() {
+	se := r.sess
+	if !se.valid || len(se.decs) == 0 {
+		se.reset()
+		r.keepLevels = 0
+		return
+	}
+	c := 0
+	for c < len(se.decs) && c < len(r.prefix) && se.decs[c] == r.prefix[c] {
+		c++
+	}
+	if c >= len(se.decs) {
+		c = len(se.decs) - 1
+	}
+	se.popTo(c)
+	r.keepLevels = c + 1
+	r.shadowPos = make([]int, c+1)
+}
+
 func (r *Run) execute() {
-	r.sp.Send("(push 1)")
+	r.align()
 	defer func() {
-		r.sp.Send("(pop 1)")
+		if r.status == "solver" || r.sp.ErrMsg != "" {
+			r.sess.valid = false
+			if r.sp.ErrMsg != "" && r.status != "solver" {
+				// an (error ...) line was seen: nothing this run concluded is trusted
+				r.status, r.msg = "solver", "solver reported: "+r.sp.ErrMsg
+			}
+			r.sp.ErrMsg = ""
+			r.sp.Send(fmt.Sprintf("(pop %d)", len(r.sess.decs)+1))
+		}
 	}()
 	defer func() {
 		x := recover()
@@ -345,6 +461,23 @@ func (r *Run) execute() {
 			r.status, r.msg = x.kind, x.msg
 		default:
 			panic(x)
+		}
+		if r.status != "solver" {
+			// discharge what is still pending, whatever ended the run
+			func() {
+				defer func() {
+					if y := recover(); y != nil {
+						ab, ok := y.(*runAbort)
+						if !ok {
+							panic(y)
+						}
+						if ab.kind != "assume" {
+							r.status, r.msg = ab.kind, ab.msg
+						}
+					}
+				}()
+				r.flushAsserts()
+			}()
 		}
 		if r.status != "assume" && r.status != "solver" && r.ex.wantsModel(r) {
 			r.captureModel()
@@ -368,24 +501,64 @@ func (r *Run) execute() {
 
 // ---- solver plumbing ----
 
-func (r *Run) define(t *sym.Term) {
-	if t.Op == sym.OpConst || r.defined[t.ID] {
-		return
+// name returns the solver symbol of t, defining it in the session if needed.
+func (r *Run) name(t *sym.Term) string {
+	if t.Op == sym.OpConst {
+		return t.SMTName()
 	}
-	for _, a := range t.Args {
-		r.define(a)
+	if n, ok := r.names[t.ID]; ok {
+		return n
 	}
+	se := r.sess
+	args := make([]string, len(t.Args))
+	for i, a := range t.Args {
+		args[i] = r.name(a)
+	}
+	body := t.Body(args)
+	if n, ok := se.byBody[body]; ok {
+		r.names[t.ID] = n
+		r.defined[t.ID] = true
+		return n
+	}
+	var n string
+	if t.Op == sym.OpVar {
+		n = t.Name
+		se.sp.Send(fmt.Sprintf("(declare-const %s %s)", n, sym.SortStr(t.W)))
+	} else {
+		se.nsym++
+		n = fmt.Sprintf("s%d", se.nsym)
+		se.sp.Send(fmt.Sprintf("(define-fun %s () %s %s)", n, sym.SortStr(t.W), body))
+	}
+	se.byBody[body] = n
+	se.bodyOf[n] = body
+	se.symLvl[n] = len(se.decs)
+	r.names[t.ID] = n
 	r.defined[t.ID] = true
-	r.sp.Send(t.Def())
+	return n
 }
+
+func (r *Run) define(t *sym.Term) { r.name(t) }
 
 func (r *Run) addPC(t *sym.Term) {
 	if t.IsTrue() {
 		return
 	}
 	r.pc = append(r.pc, t)
-	r.define(t)
-	r.sp.Send("(assert " + t.SMTName() + ")")
+	n := r.name(t)
+	lvl := r.pos
+	if lvl < r.keepLevels {
+		// this level of the solver stack is re-used from the previous run:
+		// verify that the same formula was asserted there, in the same order
+		k := r.shadowPos[lvl]
+		as := r.sess.asserts[lvl]
+		if k >= len(as) || as[k] != n {
+			panic(fmt.Sprintf("engine error: non-deterministic re-execution at level %d (assert %d: %s)", lvl, k, n))
+		}
+		r.shadowPos[lvl]++
+		return
+	}
+	r.sess.asserts[lvl] = append(r.sess.asserts[lvl], n)
+	r.sp.Send("(assert " + n + ")")
 }
 
 // check decides satisfiability of pc ∧ extra.
@@ -405,9 +578,9 @@ func (r *Run) query(extra *sym.Term, wantModel bool) (map[string]uint64, solver.
 	if extra.IsFalse() {
 		return nil, solver.Unsat
 	}
-	r.define(extra)
+	en := r.name(extra)
 	r.sp.Send("(push 1)")
-	r.sp.Send("(assert " + extra.SMTName() + ")")
+	r.sp.Send("(assert " + en + ")")
 	res := r.sp.CheckSat()
 	var m map[string]uint64
 	if res == solver.Sat && wantModel {
@@ -416,6 +589,9 @@ func (r *Run) query(extra *sym.Term, wantModel bool) (map[string]uint64, solver.
 	r.sp.Send("(pop 1)")
 	if res != solver.Unknown {
 		return m, res
+	}
+	if r.sp.ErrMsg != "" {
+		return nil, solver.Unknown
 	}
 	return r.freshQuery(extra, wantModel)
 }
@@ -439,9 +615,30 @@ func (r *Run) freshQuery(extra *sym.Term, wantModel bool) (map[string]uint64, so
 		r.ex.mu.Unlock()
 		sp.Close()
 	}()
-	// definitions in creation order (arguments precede users)
-	ids := make([]int, 0, len(r.defined))
-	for id := range r.defined {
+	// definitions of everything reachable from pc and extra, in creation
+	// order (arguments precede users)
+	need := map[int]bool{}
+	var visit func(t *sym.Term)
+	visit = func(t *sym.Term) {
+		if t.Op == sym.OpConst || need[t.ID] {
+			return
+		}
+		need[t.ID] = true
+		for _, a := range t.Args {
+			visit(a)
+		}
+	}
+	for _, t := range r.pc {
+		visit(t)
+	}
+	visit(extra)
+	for _, v := range r.in.ctx.Vars {
+		if r.defined[v.ID] {
+			need[v.ID] = true
+		}
+	}
+	ids := make([]int, 0, len(need))
+	for id := range need {
 		ids = append(ids, id)
 	}
 	sort.Ints(ids)
@@ -525,13 +722,18 @@ func (r *Run) replaying() bool { return r.pos < len(r.prefix) }
 func (r *Run) record(d Decision) {
 	r.taken = append(r.taken, d)
 	r.pos++
+	if r.pos >= r.keepLevels {
+		r.sp.Send("(push 1)")
+		r.sess.decs = append(r.sess.decs, d)
+		r.sess.asserts = append(r.sess.asserts, nil)
+	}
 }
 
 func (r *Run) fork(alt Decision) {
 	p := make([]Decision, len(r.taken)+1)
 	copy(p, r.taken)
 	p[len(r.taken)] = alt
-	r.ex.push(p)
+	r.ex.push(r.wid, p)
 }
 
 // Branch decides a boolean condition, forking if both sides are feasible.
@@ -612,7 +814,7 @@ func (r *Run) Concretize(t *sym.Term, site ssa.Instruction) uint64 {
 		r.addPC(ctx.Eq(t, ctx.Const(d.Val, t.W)))
 		return d.Val
 	}
-	r.define(t)
+	tn := r.name(t)
 	var vals []uint64
 	r.sp.Send("(push 1)")
 	for {
@@ -624,18 +826,18 @@ func (r *Run) Concretize(t *sym.Term, site ssa.Instruction) uint64 {
 		if res == solver.Unsat {
 			break
 		}
-		m, err := r.sp.GetValues([]string{t.SMTName()})
+		m, err := r.sp.GetValues([]string{tn})
 		if err != nil {
 			r.sp.Send("(pop 1)")
 			panic(&runAbort{kind: "solver", msg: err.Error()})
 		}
-		v := m[t.SMTName()]
+		v := m[tn]
 		vals = append(vals, v)
 		if len(vals) > maxConcretize {
 			r.sp.Send("(pop 1)")
 			panic(&runAbort{kind: "unsupported", msg: fmt.Sprintf("more than %d feasible concrete values at %s", maxConcretize, r.in.siteStr(site))})
 		}
-		r.sp.Send(fmt.Sprintf("(assert (not (= %s (_ bv%d %d))))", t.SMTName(), v, t.W))
+		r.sp.Send(fmt.Sprintf("(assert (not (= %s (_ bv%d %d))))", tn, v, t.W))
 	}
 	r.sp.Send("(pop 1)")
 	if len(vals) == 0 {
@@ -655,6 +857,7 @@ func (r *Run) Assume(c *sym.Term) {
 	if c.IsTrue() {
 		return
 	}
+	r.flushAsserts()
 	if c.IsFalse() {
 		panic(&runAbort{kind: "assume", msg: "assume(false)"})
 	}
@@ -670,13 +873,74 @@ func (r *Run) Assume(c *sym.Term) {
 	r.addPC(c)
 }
 
-// Assert discharges an obligation.
+type pendingAssert struct {
+	c     *sym.Term
+	label string
+	site  string
+}
+
+// Assert registers an obligation. Obligations are discharged in batches
+// (flushAsserts): before the path condition is strengthened by an assumption
+// and at the end of the run, whatever its status. Deferring is sound because
+// the explored paths partition the states that reach the assertion: a model
+// of pc ∧ ¬c follows one of them to a flush point.
 func (r *Run) Assert(c *sym.Term, label string, site ssa.Instruction) {
 	if !r.ex.Opt.labelSelected(label) {
 		// label not selected by this check: treated as not asserted
 		return
 	}
-	rec := AssertRec{Label: label, Site: r.in.siteStr(site)}
+	ss := r.in.siteStr(site)
+	if c.IsTrue() {
+		r.asserts = append(r.asserts, AssertRec{Label: label, Site: ss, Verdict: "trivially-true"})
+		return
+	}
+	r.pending = append(r.pending, pendingAssert{c: c, label: label, site: ss})
+}
+
+// flushAsserts discharges the pending obligations: their conjunction first
+// (one query when everything holds), one by one otherwise.
+func (r *Run) flushAsserts() {
+	if len(r.pending) == 0 {
+		return
+	}
+	pend := r.pending
+	r.pending = nil
+	c := r.in.ctx
+	conds := make([]*sym.Term, len(pend))
+	for i, p := range pend {
+		conds[i] = p.c
+	}
+	conj := c.And(conds...)
+	all := func(v string) {
+		for _, p := range pend {
+			r.asserts = append(r.asserts, AssertRec{Label: p.label, Site: p.site, Verdict: v})
+		}
+	}
+	if r.replaying() {
+		d := r.prefix[r.pos]
+		if d.Kind != 'e' {
+			panic(fmt.Sprintf("replay divergence at %d: want assert batch, prefix has %c (%s)", r.pos, d.Kind, decStr(r.prefix)))
+		}
+		r.record(d)
+		if d.Val == 0 {
+			all("replayed")
+			return
+		}
+	} else {
+		if !conj.IsFalse() && r.check(c.Not(conj)) == solver.Unsat {
+			r.record(Decision{'e', 0})
+			all("proved")
+			return
+		}
+		r.record(Decision{'e', 1})
+	}
+	for _, p := range pend {
+		r.assertNow(p.c, p.label, p.site)
+	}
+}
+
+func (r *Run) assertNow(c *sym.Term, label string, ss string) {
+	rec := AssertRec{Label: label, Site: ss}
 	switch {
 	case c.IsTrue():
 		rec.Verdict = "trivially-true"
@@ -707,6 +971,9 @@ func (r *Run) Assert(c *sym.Term, label string, site ssa.Instruction) {
 			r.asserts = append(r.asserts, rec)
 			r.solverUnknown("assertion " + label + " undecided")
 		case solver.Sat:
+			if r.ex.Opt.Verbose {
+				fmt.Fprintf(os.Stderr, "violated %s at %s\n", label, ss)
+			}
 			rec.Verdict = "violated"
 			rec.Model = m
 			r.viol = append(r.viol, Violation{Harness: r.ex.Name, Label: label, Site: rec.Site, Prefix: append([]Decision(nil), r.taken...), Inputs: r.inputsWithModel(m), Model: m, Kind: "assert"})
@@ -722,41 +989,9 @@ func (r *Run) Assert(c *sym.Term, label string, site ssa.Instruction) {
 	r.asserts = append(r.asserts, rec)
 }
 
-// AssertEach discharges a conjunction of named clauses: the conjunction is
-// tried first; only if it is not proved are the clauses decided one by one
-// (so that a counterexample names the clause that fails).
+// AssertEach registers a list of named clauses label@name.
 func (r *Run) AssertEach(label string, conds []*sym.Term, names []string, site ssa.Instruction) {
-	if !r.ex.Opt.labelSelected(label) {
-		return
-	}
-	c := r.in.ctx
-	conj := c.And(conds...)
-	if conj.IsTrue() {
-		r.asserts = append(r.asserts, AssertRec{Label: label, Site: r.in.siteStr(site), Verdict: "trivially-true"})
-		return
-	}
-	if r.replaying() {
-		d := r.prefix[r.pos]
-		if d.Kind != 'e' {
-			panic(fmt.Sprintf("replay divergence at %d: want assert-each, prefix has %c", r.pos, d.Kind))
-		}
-		r.record(d)
-		if d.Val == 0 {
-			r.asserts = append(r.asserts, AssertRec{Label: label, Site: r.in.siteStr(site), Verdict: "replayed"})
-			return
-		}
-	} else {
-		if !conj.IsFalse() && r.check(c.Not(conj)) == solver.Unsat {
-			r.record(Decision{'e', 0})
-			r.asserts = append(r.asserts, AssertRec{Label: label, Site: r.in.siteStr(site), Verdict: "proved"})
-			return
-		}
-		r.record(Decision{'e', 1})
-	}
 	for i, cond := range conds {
-		if cond.IsTrue() {
-			continue
-		}
 		r.Assert(cond, label+"@"+names[i], site)
 	}
 }
